@@ -1,7 +1,7 @@
 (* C08 proofs, part 3: reduction of prior terms to the batch shape of the objective. *)
 From Coq Require Import Arith Lia List Bool ZArith.
 Import ListNotations.
-From GPV Require Import Models.C08_shape Models.C08_diag Models.C08_prior Proofs.C08_shape.
+From GPV Require Import Models.C08_shape Models.C08_diag Models.C08_prior Proofs.C08_shape Proofs.C08_diag.
 
 (* owner with a batch_shape attribute equal to the parameters' batch shape: exactly the event dims are summed *)
 Lemma prior_known_owner sp ev r : prior_reduced_shape (Some sp) r (sp ++ ev) = sp.
